@@ -5,6 +5,12 @@ import "strings"
 // CommandLine takes in command line arguments as a slice and escapes the parameters
 func CommandLine(s []string) {
 	for i := range s {
+		if s[i] == "" {
+			// an empty parameter has to be written as an empty pair of quotes,
+			// otherwise it vanishes when the parameters are joined
+			s[i] = `''`
+			continue
+		}
 		s[i] = strings.Replace(s[i], `\`, `\\`, -1)
 		s[i] = strings.Replace(s[i], `$`, `\$`, -1)
 		s[i] = strings.Replace(s[i], `@`, `\@`, -1)
